@@ -107,7 +107,14 @@ TrSetPower == IsEvent("SetPower") /\ LET e == Trace[l]  a == e.args IN
   /\ Report("Setup.PowerSet", power'[a.v] = a.p)
   /\ Conf("SetPower", last' = last /\ atts' = atts /\ effects' = effects)
 
+\* governance restating the token binding: nothing the oracle holds changes, and later deposits are applied as before
+TrRebind == IsEvent("Rebind") /\ LET e == Trace[l] IN
+  /\ Obs(e.obs) /\ res' = e.res /\ epoch' = epoch /\ views' = views /\ cursor' = cursor
+  /\ applied' = AppendAll(applied, NewlyObserved)
+  /\ Always(e)
+  /\ Conf("Rebind", last' = last /\ atts' = atts /\ effects' = effects)
+
 TraceInit == Init /\ l = 1 /\ nonceOf = [v \in Vals |-> 0]
-TraceNext == TrInit \/ TrVote \/ TrTally \/ TrOverride \/ TrActivate \/ TrSetPower
+TraceNext == TrInit \/ TrVote \/ TrTally \/ TrOverride \/ TrActivate \/ TrSetPower \/ TrRebind
 TraceAccepted == TLCGet("stats").diameter - 1 = Len(Trace)
 =============================================================================
